@@ -1,5 +1,8 @@
 //! hx: drives the real adsb_deku / rsadsb_common code and records what it did as ndjson events.
 //! The judgement of every event is made by TLC against the TLA+ specification, never here.
+//! The projections tolerate additions to the library's enums and structs (wildcard arms, `..` patterns): an added
+//! variant shows up as a disagreement with the specification, not as a harness that no longer builds.
+#![allow(unreachable_patterns)]
 mod project;
 #[cfg(feature = "std")]
 mod reader;
